@@ -489,7 +489,7 @@ def enumerate_cases(exe_impl, tier, kind, seed=1, only=None):
                     # of klunok's own files it would mean "there is no such file" (e.g. no remembered position), which
                     # is a different environment, not a failing call
                     errs = [e for e in errs if e != "ENOENT"]
-                if cname == "open" and "W|CREAT|EXCL" in cline and "EEXIST" not in errs:
+                if cname == "open" and "W|CREAT|EXCL" in cline and "EEXIST" not in errs and cline.endswith("-> fd"):
                     # the expected condition "name already taken" at the exclusive create of a version
                     errs = errs + ["EEXIST"]
                 if tier == "quick" and len(errs) > 2:
@@ -1120,8 +1120,8 @@ def mon_expected_handled(steps, meta):
     e = meta.get("errno") if isinstance(meta, dict) else None
     expected = ((e in ("ENOENT", "EACCES") and cl.startswith("open $/w/") and cl.split(" ")[2] == "R")
                 or (e == "EEXIST" and cl.startswith("open $/k/store/") and "W|CREAT|EXCL" in cl))
-    if not expected:
-        return None
+    if not expected or not cl.endswith("-> fd"):
+        return None      # (a call that fails in the undisturbed run too belongs to a scenario that is meant to fail)
     disturbed = False
     for st in steps:
         if st.op == "oracle":
@@ -1317,10 +1317,12 @@ def mon_no_error(steps, meta):
     if any(st.line.startswith("cfgbind invalid") for st in steps):
         return None
     blocked = False     # the scenario made the (project) store unusable (stray file): an error is the right answer
+    def store_place(p):
+        return p in (CANON_ROOT + "/k/projects", CANON_ROOT + "/k/store") or p.startswith(CANON_ROOT + "/k/store/")
     for st in steps:
-        if st.op == "put" and unhexs(st.tok[1]) in (CANON_ROOT + "/k/projects", CANON_ROOT + "/k/store"):
+        if st.op == "put" and store_place(unhexs(st.tok[1])):
             blocked = True
-        if st.op == "rm" and unhexs(st.tok[1]) in (CANON_ROOT + "/k/projects", CANON_ROOT + "/k/store"):
+        if st.op == "rm" and store_place(unhexs(st.tok[1])):
             blocked = False
         if st.op in HANDLER_OPS and st.result == "error" and not blocked:
             msgs = [unhexs(t.split(":", 1)[1]) for t in (st.trace or "").split()[1:]]
